@@ -6,6 +6,7 @@ import (
 
 	_ "verifharness/mon/c04"
 	_ "verifharness/mon/c06"
+	_ "verifharness/mon/c07"
 	_ "verifharness/mon/c08"
 	_ "verifharness/mon/c09"
 	_ "verifharness/mon/c11"
